@@ -857,11 +857,13 @@ ACQ_SPECS = [
 
 
 class _ArithExpr:
-  def __init__(self, src, consts):
-    self.src, self.consts, self.params = src, consts, []
+  def __init__(self, src, consts, ring="arith"):
+    self.src, self.consts, self.params, self.ring = src, consts, [], ring
 
   def lit(self, q):
     q = Fraction(q)
+    if self.ring == "rat":
+      return rat_lit(q)
     if q == 0:
       return "(0 : α)"
     if q == 1:
@@ -907,6 +909,9 @@ class _ArithExpr:
       fn = ast.unparse(n.func)
       one = {"numpy.sqrt": "Arith.sqrt", "numpy.exp": "Arith.exp", "numpy.log": "Arith.log"}
       two = {"numpy.fmax": "Arith.max", "numpy.maximum": "Arith.max", "numpy.fmin": "Arith.min", "numpy.minimum": "Arith.min"}
+      if self.ring == "rat":      # exact rationals: no transcendental functions; max / min are the order's
+        one = {}
+        two = {k: v.replace("Arith.", "") for k, v in two.items()}
       if fn in one and len(n.args) == 1:
         return f"({one[fn]} {self.expr(n.args[0])})"
       if fn in two and len(n.args) == 2:
@@ -951,7 +956,23 @@ KERNEL_SPECS = [
 ]
 
 
+_MM = "libsigopt/compute/misc/multimetric.py"
+EPS_SPECS = [
+  ("eps_combination", _MM, None, "_find_epsilon_constraint_value_no_bounds", ("return",),
+   ["best_points = numpy.nanargmin(points_sampled_values, 0)",
+    "min_bound = numpy.nanmin(points_sampled_values[best_points, constraint_metric])",
+    "max_bound = numpy.nanmax(points_sampled_values[best_points, constraint_metric])"]),
+  ("eps_combination_bounds", _MM, None, "_find_epsilon_constraint_value_with_bounds", ("return_last",), []),
+]
+
+
 def generate_acq(repo, gen_dir):
+  status = _generate_exprs(repo, gen_dir, EPS_SPECS, "Epsilon", "pyfun_eps", "epsilon-constraint combination", ring="rat")
+  status.update(_generate_acq_kernels(repo, gen_dir))
+  return status
+
+
+def _generate_acq_kernels(repo, gen_dir):
   status = _generate_exprs(repo, gen_dir, KERNEL_SPECS, "KernelProfiles", "pyfun_ker", "radial kernel profiles")
   status.update(_generate_acq_rest(repo, gen_dir))
   return status
@@ -964,16 +985,15 @@ def _generate_acq_rest(repo, gen_dir):
   return status
 
 
-def _generate_exprs(repo, gen_dir, specs, fname, prefix, what_text):
+def _generate_exprs(repo, gen_dir, specs, fname, prefix, what_text, ring="arith"):
   status = {}
   out = [
     f"/- GENERATED by harness/pyfun.py from the current libsigopt source ({what_text}). Do not edit. -/",
-    "import Model.Arith",
+  ] + (["import Model.Arith"] if ring == "arith" else []) + [
     "set_option linter.unusedVariables false",
     "namespace Gen",
-    "variable {α : Type} [Arith α]",
-    "",
-  ]
+  ] + (["variable {α : Type} [Arith α]"] if ring == "arith" else []) + [""]
+  ty = "α" if ring == "arith" else "Rat"
   ok = True
   mods = {}
   for lean_name, rel, cls_name, meth, what, guard in specs:
@@ -987,8 +1007,11 @@ def _generate_exprs(repo, gen_dir, specs, fname, prefix, what_text):
           raise TranslationError(str(e))
         mods[path] = (src, tree, _imported_consts(repo, tree, consts))
       src, tree, consts = mods[path]
-      cls = next((st for st in tree.body if isinstance(st, ast.ClassDef) and st.name == cls_name), None)
-      fn = next((m for m in (cls.body if cls else []) if isinstance(m, ast.FunctionDef) and m.name == meth), None)
+      if cls_name is None:      # a module-level function
+        fn = next((m for m in tree.body if isinstance(m, ast.FunctionDef) and m.name == meth), None)
+      else:
+        cls = next((st for st in tree.body if isinstance(st, ast.ClassDef) and st.name == cls_name), None)
+        fn = next((m for m in (cls.body if cls else []) if isinstance(m, ast.FunctionDef) and m.name == meth), None)
       if fn is None:
         raise TranslationError(f"{cls_name}.{meth} not found")
       texts = [ast.unparse(st) for st in ast.walk(fn) if isinstance(st, ast.stmt)]
@@ -1010,6 +1033,8 @@ def _generate_exprs(repo, gen_dir, specs, fname, prefix, what_text):
       else:
         rets = [st for st in ast.walk(fn) if isinstance(st, ast.Return)
                 and not (isinstance(st.value, ast.Constant) and st.value.value is None)]
+        if what[0] == "return_last":      # the function's final statement (earlier returns are fall-backs to other routines)
+          rets = [fn.body[-1]] if isinstance(fn.body[-1], ast.Return) else []
         if len(rets) != 1 or rets[0].value is None:
           raise TranslationError(f"{meth} does not have exactly one return")
         node = rets[0].value
@@ -1026,12 +1051,12 @@ def _generate_exprs(repo, gen_dir, specs, fname, prefix, what_text):
           if not isinstance(node, ast.Tuple) or len(node.elts) <= what[1]:
             raise TranslationError(f"{meth} does not return a tuple with an element {what[1]}")
           node = node.elts[what[1]]
-      tr = _ArithExpr(src, consts)
+      tr = _ArithExpr(src, consts, ring)
       body = tr.expr(node)
       params = sorted(tr.params)
-      ptxt = (" (" + " ".join(params) + " : α)") if params else ""
-      out.append(f"-- {rel}: {cls_name}.{meth}: {ast.unparse(node)}")
-      out.append(f"def {lean_name}{ptxt} : α :=\n  {body}\n")
+      ptxt = (" (" + " ".join(params) + f" : {ty})") if params else ""
+      out.append(f"-- {rel}: {cls_name + '.' if cls_name else ''}{meth}: {ast.unparse(node)}")
+      out.append(f"def {lean_name}{ptxt} : {ty} :=\n  {body}\n")
       status[key] = "ok"
     except TranslationError as e:
       ok = False
